@@ -247,6 +247,32 @@ impl ServeState {
                 let w = wire.lock().unwrap_or_else(|e| e.into_inner());
                 format!("{} {}", head, show_wire(&w))
             }
+            // the application handler called directly, without the server loop in front of it (no origin-form gate, no
+            // request buffer): `aexec 0 d:<request>` = App::new().execute, `aexec 1 d:<request>` = App::handle_request
+            "aexec" => {
+                if f.len() < 2 { return "bad-op".into(); }
+                let legacy = f[0] == "1";
+                let data = match parse_read(&f[1]) { Some(Some(d)) => d, _ => return "bad-op".into() };
+                let r = std::panic::catch_unwind(std::panic::AssertUnwindSafe(move || {
+                    let request = match Request::parse(&data) { Ok(r) => r, Err(_) => return "unparsed w=- recv=- fl=0".to_string() };
+                    if legacy {
+                        let (response, request) = App::handle_request(request);
+                        let raw = Response::generate_response(response, request);
+                        format!("ok w={} recv={} fl=1", hex(&raw), hex(&raw))
+                    } else {
+                        let connection = ConnectionInfo {
+                            client: Address { ip: "127.0.0.1".to_string(), port: 40000 },
+                            server: Address { ip: "127.0.0.1".to_string(), port: 7878 },
+                            request_size: 10000,
+                        };
+                        match App::new().execute(&request, &connection) {
+                            Ok(response) => { let raw = Response::generate_response(response, request); format!("ok w={} recv={} fl=1", hex(&raw), hex(&raw)) }
+                            Err(_) => "err w=- recv=- fl=0".to_string(),
+                        }
+                    }
+                }));
+                match r { Ok(s) => s, Err(_) => format!("panic {} w=- recv=- fl=0", take_panic_site()) }
+            }
             _ => "bad-op".into(),
         }
     }
